@@ -1067,6 +1067,7 @@ static PyObject* gbmv(PyObject *self, PyObject *args, PyObject *kwrds)
     /* xSCAL does nothing for a nonpositive increment; y := beta*y below
        addresses the same entries of y with the increment |incy|. */
     iy_abs = abs(iy);
+    if (m < 0) err_nn_int("m");
     if (n < 0) n = A->ncols;
     if ((!m && trans == 'N') || (!n && (trans == 'T' || trans == 'C')))
        return Py_BuildValue("");
